@@ -342,6 +342,8 @@ class C09:
             keys = P.make_keys(S, suite, 3)
             flows = P.honest_sigs(S, suite, keys, [(3, b"h"), (0, None)])
             proofs = P.honest_proofs(S, [(flows[0], [1], b"ph"), (flows[0], [0, 1, 2], None), (flows[1], [], None)])
+            # ... and one proof with MORE than 255 undisclosed messages (its encoding has 272 + 32 * 258 octets)
+            proofs += P.honest_proofs(S, [(f_, [], None) for f_ in P.honest_sigs(S, suite, keys, [(258, b"h")], label="triv:sign-large")], label="triv:proofgen-large")
             bfl = P.blind_flows(S, suite, keys, [(1, 2, b""), (0, 0, None)])
             objs = []
             for sk, pk in keys: objs += [("pk", pk), ("sk", sk)]
@@ -724,7 +726,8 @@ class C11:
         # api_id -- present, empty and ABSENT -- without a repeated point, the identity or P1
         stats["prepare_parameters"] = 0
         for s_ in P.SUITES:
-            for api_t, api_b in [("N", b""), ("S", b""), ("S" + pyc.API_BLIND[s_].hex(), pyc.API_BLIND[s_]), ("S" + shared.hex(), shared)]:
+            for api_t, api_b in [("N", b""), ("S", b""), ("S" + pyc.API_BLIND[s_].hex(), pyc.API_BLIND[s_]), ("S" + shared.hex(), shared),
+                                 ("S" + b"BLIND_".hex(), b"BLIND_"), ("S" + (b"BLIND_" + shared[:5]).hex(), b"BLIND_" + shared[:5]), ("S" + (b"BLIND_BLIND_").hex(), b"BLIND_BLIND_")]:
                 for (gn, bn) in ([(1, 1), (3, 2), (2, 5)] if tier == "quick" else [(0, 0), (1, 0), (0, 1), (1, 1), (3, 2), (2, 5), (17, 9)]):
                     spb = rng.choice(["N", "S" + (1 + rng.randrange(2**200)).to_bytes(32, "big").hex()])
                     rp = S.run(["prep %s %s %s %d %d %s %s" % (s_, tl([b"m%d" % i for i in range(max(gn - 1, 0))]), tl([b"c"] * max(bn - 1, 0)), gn, bn, spb, api_t),
@@ -788,7 +791,7 @@ class C12:
             # a vector with MORE than 256 messages, updated at positions on both sides of 255 / 256 (a generator index kept in one octet would wrap there)
             for fb in P.honest_sigs(S, suite, keys, [(260 if tier == "quick" else 520, b"h")], label="triv:sign-large"):
                 Lb = len(fb["msgs"]); curb = list(fb["msgs"]); sigb = fb["sig"]
-                for i in ([253, 254, 255, 256, 259] if tier == "quick" else [127, 128, 253, 254, 255, 256, 257, 259, 511, 512, 519]):
+                for i in ([0, 3, 253, 254, 255, 256, 259] if tier == "quick" else [0, 3, 127, 128, 253, 254, 255, 256, 257, 259, 263, 511, 512, 519]):
                     v = P.rb(rng, 9)
                     r = S.run(["update %s %s %s %s %s %d %d" % (suite, tb(fb["sk"]), tb(sigb), tb(curb[i]), tb(v), i, Lb)], expect="ok", label="update(large vector)")[0]
                     if r.status != "OK": break
